@@ -4,8 +4,9 @@ C20 — site symmetry analysis gives exact orbits and invariant bases.
 (a) catalogue + generated family: for every site the real pointG / Wyckoff / Wyckoffpos / VectorBasis /
     SymmTensorBasis / FullVectorBasis / addbasis results are compared with R-geom: the brute-force space group,
     union-find orbits, and the Reynolds (group-average) projectors.
-(b) every subgroup of O_h (98), D_6h (54), D_4 (10, 2D), D_6 (16, 2D), enumerated by closure, in several
-    hosts / orientations, installed as the site point group (attribute pointG; G likewise so that
+(b) every subgroup of O_h (98), D_6h (54), D_4 (10, 2D), D_6 (16, 2D), enumerated by closure (generator pairs
+    alone reach only 91 / 50 of the 3D ones; the closure is continued element by element until nothing new
+    appears), in several hosts / orientations, installed as the site point group (attribute pointG; G likewise so that
     FullVectorBasis sees the same group) of a real one-atom crystal and pushed through the real methods.
 """
 import copy, hashlib, math
